@@ -1,6 +1,6 @@
 (** Statements of the C11 theorems spelled out again, so that a theorem cannot be silently
     weakened: this file stops compiling if a statement in Props/C11.v changes. *)
-From BV Require Import Base.Common Model.Index Proofs.Index Corr.C11 Proofs.CorrC11 Props.C11.
+From BV Require Import Base.Common Model.Index Model.ExecMap Proofs.Index Proofs.ExecMap Corr.C11 Proofs.CorrC11 Props.C11.
 From Coq Require Import Permutation.
 
 Check C11_build_total : forall l, exists x, build l = Some x.
@@ -44,6 +44,23 @@ Check C11_tables_aligned : forall l x added, build l = Some x -> assets_wf l -> 
 Check C11_hypothesis_checks : forall l,
   (faithful_b l = true -> faithful l) /\ (assets_wf_b l = true -> assets_wf l) /\
   (inames_wf_b l = true -> inames_wf l) /\ (inames_wf l -> inames_ex_wf l).
+Check C11_execution_map_aligned : forall l x e, build l = Some x ->
+  (gen_map x e = None <-> ~ In e (map snd (x_exchanges x))) /\
+  forall m, gen_map x e = Some m ->
+    (forall k n, find_instrument_name m k = Some n ->
+       instrument_owner x k = Some (e, n) /\ find_instrument_ix m n = Some k) /\
+    (forall k n, find_instrument_ix m n = Some k ->
+       instrument_owner x k = Some (e, n) /\ find_instrument_name m k = Some n) /\
+    (forall k, (forall n, instrument_owner x k <> Some (e, n)) -> find_instrument_name m k = None) /\
+    (names_distinct x e -> forall k n, instrument_owner x k = Some (e, n) ->
+       find_instrument_name m k = Some n /\ find_instrument_ix m n = Some k) /\
+    (forall k n, find_asset_name m k = Some n ->
+       asset_owner x k = Some (e, n) /\ find_asset_ix m n = Some k) /\
+    (forall k n, find_asset_ix m n = Some k ->
+       asset_owner x k = Some (e, n) /\ find_asset_name m k = Some n) /\
+    (forall k, (forall n, asset_owner x k <> Some (e, n)) -> find_asset_name m k = None) /\
+    (names_distinct x e -> forall k n, asset_owner x k = Some (e, n) ->
+       find_asset_name m k = Some n /\ find_asset_ix m n = Some k).
 Check C11_oracle_sound : forall c, wf_case c = true -> corr_b c = true -> prop_b c = true.
 Check eq_refl : wf_case (CPerm [] 1 [([], Some (mkIndexed [] [] []))])%N = true.
 Check eq_refl : wf_case (CPerm [] 0 [([], Some (mkIndexed [] [] []))])%N = false.
@@ -64,3 +81,6 @@ Check eq_refl : sources [mkDef 1 (mkInstr 0 0 0 (0, 0) (1, 1) KSpot None 0);
                          mkDef 1 (mkInstr 0 0 0 (0, 0) (1, 1) KSpot None 0)]%N
                 = [mkDef 0 (mkInstr 0 1 1 (0, 0) (1, 1) KSpot None 0);
                    mkDef 1 (mkInstr 0 0 0 (0, 0) (1, 1) KSpot None 0)]%N.
+Check eq_refl : wf_case (CXMap [] (Some (mkIndexed [] [] [])) [(0, None)])%N = true.
+Check eq_refl : prop_b (CXMap [] (Some (mkIndexed [(0, 5)] [(0, (5, (1, 1)))] [])) [(5, Some (mkXMap [(0, None)] [] [] []))])%N = false.
+Check eq_refl : prop_b (CXMap [] (Some (mkIndexed [(0, 5)] [(0, (5, (1, 1)))] [])) [(5, Some (mkXMap [(0, Some 1)] [(1, Some 0)] [] []))])%N = true.
